@@ -69,12 +69,29 @@ def check_manager_purge(prop: str, res: Result, repo: Repo):
     for n in ast.walk(pg.node):
         if isinstance(n, ast.For) and isinstance(n.target, ast.Name):
             loopvars[n.target.id] = ast.unparse(n.iter)
+    defs = {n.targets[0].id: n.value for n in ast.walk(pg.node) if isinstance(n, ast.Assign) and len(n.targets) == 1 and isinstance(n.targets[0], ast.Name)}
+
+    def from_param(txt, depth=0) -> bool:
+        """the iterable is the parameter itself, or a local built only from it (`(x,) if isinstance(x, str) else x`, `{x}`, `set(x)` ...)"""
+        if txt in params:
+            return True
+        if depth > 2:
+            return False
+        try:
+            e = defs[txt] if txt in defs else ast.parse(txt, mode="eval").body
+        except SyntaxError:
+            return False
+        if isinstance(e, ast.Name) and e.id == txt and txt not in defs:
+            return False
+        names = {n.id for n in ast.walk(e) if isinstance(n, ast.Name)}
+        return bool(names & set(params)) and names <= set(params) | {"str", "isinstance", "set", "list", "tuple", "frozenset"} and not any(isinstance(n, (ast.Call,)) and call_name(n) not in ("isinstance", "set", "list", "tuple", "frozenset") for n in ast.walk(e))
+
     pops = [c for c in calls_in(pg.node) if call_name(c) == "pop"]
     if not pops:
         res.fail(rule, finding(prop, rule, pg, pg.node, "CandleManager.purge no longer pops names from the reading dicts", construct="purge: pops"))
     for c in pops:
         key = ast.unparse(c.args[0]) if c.args else "?"
-        exact = key in params or loopvars.get(key) in params
+        exact = key in params or (key in loopvars and from_param(loopvars[key]))
         if exact and len(c.args) == 2:
             res.ok(rule, {"site": f"{pg.where} {norm_construct(c)}", "key": key}, nontrivial=norm_construct(c))
         else:
